@@ -43,6 +43,39 @@ chk("C09", "model_checking",
     "The claim is the enumerated grammar, not all byte strings; balances bounded by the harness genesis.",
     "bounded-exhaustive input-grammar enumeration on the real app, no-panic + liveness oracle", "§5 C09")
 
+chk("C02", "model_checking",
+    "All histories within the deviation bound of the shared families and of a value-moving family (28-template menu with 256-bit boundary amounts, boundary-balance senders, both genesis stakes unbonding, unstake + re-stake twice in a block, withdrawals, value-carrying contract calls, evidence, jailing, proposer-less blocks): at every height the sum of ALL balances + bonded + unbonding stake read from the implementation obeys T(h)=T(h-1)+withdrawn-slashed-burntFees, no balance exceeds the total supply, every balance equals the model's.",
+    'Reference model (mc/refmodel) is result-conditioned: it asserts only the necessary conditions the properties state and computes exact effects / block rules; validator tie-breaks and acceptance heuristics (stake limiter, EVM gas schedule) are not predicted. Known findings are matched by (kind, site) fingerprints.',
+    "deviation-bounded exhaustive history exploration on the real app, step-by-step comparison with a result-conditioned reference model", "§5 C02")
+chk("C10", "model_checking",
+    "All histories within the bound of the shared families and of candidate families (4 candidates around maxValidatorCnt 2 and 3, ties at the cut, governance changes of count and minimum stake, evidence, jailing, one restart at several boundaries): every EndBlock update list is applied to tendermint's REAL ValidatorSet (well-formedness) and the folded set must be a valid top-N of the delegatees the implementation committed at h-1, power = total bonded power.",
+    'Reference model (mc/refmodel) is result-conditioned: it asserts only the necessary conditions the properties state and computes exact effects / block rules; validator tie-breaks and acceptance heuristics (stake limiter, EVM gas schedule) are not predicted. Known findings are matched by (kind, site) fingerprints.',
+    "deviation-bounded exhaustive history exploration on the real app, step-by-step comparison with a result-conditioned reference model", "§5 C10")
+chk("C11", "model_checking",
+    'Shared families + stake-centred families (up to 3 operations on the same delegatee per block: stake, delegate, partial / full unstake, forced unbonding, re-stake after deletion; slashing with forfeiture; jailing): per-height invariants read from the implementation (TotalPower / SelfPower = sums of stakes; total_power query = sum; every stake in exactly one place) plus stake-record equality with the model.',
+    'Reference model (mc/refmodel) is result-conditioned: it asserts only the necessary conditions the properties state and computes exact effects / block rules; validator tie-breaks and acceptance heuristics (stake limiter, EVM gas schedule) are not predicted. Known findings are matched by (kind, site) fingerprints.',
+    "deviation-bounded exhaustive history exploration on the real app, step-by-step comparison with a result-conditioned reference model", "§5 C11")
+chk("C12", "model_checking",
+    "Shared families + unbonding families (owner / delegatee / stranger unstake attempts, 1-3 stakes unbonding concurrently, forced release, governance change of the unbonding period 2->1 and 2->4 around releases): owner-only release as necessary condition; unbonding list and refunded balances equal the model's at every height (refund exactly once, in full, to the owner, at release + period in force at release).",
+    'Reference model (mc/refmodel) is result-conditioned: it asserts only the necessary conditions the properties state and computes exact effects / block rules; validator tie-breaks and acceptance heuristics (stake limiter, EVM gas schedule) are not predicted. Known findings are matched by (kind, site) fingerprints.',
+    "deviation-bounded exhaustive history exploration on the real app, step-by-step comparison with a result-conditioned reference model", "§5 C12")
+chk("C13", "model_checking",
+    'Shared families + reward families (staking changes crossing the 4-block provenance lag, every per-block signing pattern slot, withdrawals 0 / 1 / exact / exact+1 / twice / excessive / without record): issuance per the provenance rule (the harness is the consensus engine and knows from which stake list each voting power was derived), withdrawable = issued - withdrawn at every height, withdraw <= withdrawable as necessary condition, exact credit.',
+    'Reference model (mc/refmodel) is result-conditioned: it asserts only the necessary conditions the properties state and computes exact effects / block rules; validator tie-breaks and acceptance heuristics (stake limiter, EVM gas schedule) are not predicted. Known findings are matched by (kind, site) fingerprints.',
+    "deviation-bounded exhaustive history exploration on the real app, step-by-step comparison with a result-conditioned reference model", "§5 C13")
+chk("C14", "model_checking",
+    "Shared families + evidence / downtime families (stakes of power 10,1,2,3 and 8,5; open two-option proposal with the offenders' votes; slash ratio 1/33/50/100; window/minimum (3,2),(2,2),(4,1); per-block evidence from {validator, unknown, other validator, same twice, two validators, non-validator} and missed-signature patterns in every pair of blocks): amounts by the statement's rule via the model, frame condition (bystanders and balances untouched) checked directly on consecutive implementation states.",
+    'Reference model (mc/refmodel) is result-conditioned: it asserts only the necessary conditions the properties state and computes exact effects / block rules; validator tie-breaks and acceptance heuristics (stake limiter, EVM gas schedule) are not predicted. Known findings are matched by (kind, site) fingerprints.',
+    "deviation-bounded exhaustive history exploration on the real app, step-by-step comparison with a result-conditioned reference model", "§5 C14")
+chk("C15", "model_checking",
+    'Shared families + governance families (24-template menu of proposals / votes / re-votes by members, late joiners, outsiders at every height relative to the window, up to 3 per block; evidence against voters; two proposals applying at the same height): necessary conditions on acceptance, snapshot tally, pass iff >= floor(2T/3) at close, timed application with unset fields kept, parameters in force == gov_params query == model at every height, plus a behavioural price probe.',
+    'Reference model (mc/refmodel) is result-conditioned: it asserts only the necessary conditions the properties state and computes exact effects / block rules; validator tie-breaks and acceptance heuristics (stake limiter, EVM gas schedule) are not predicted. Known findings are matched by (kind, site) fingerprints.',
+    "deviation-bounded exhaustive history exploration on the real app, step-by-step comparison with a result-conditioned reference model", "§5 C15")
+chk("C16", "model_checking",
+    "Shared families + fee families (6 tx types x gas {min-1,min,min+1,large} x price {0,p-1,p,p+1,2^255}, up to 3 per block, proposer of every block from {V0,V1,none}, governance change of gasPrice and minTrxGas in mid-history): admission conditions as necessary conditions, exact charge (gas x price native, gasUsed x price contract, gasUsed <= limit), proposer credited exactly the block's fees; fee-touched balances equal the model's.",
+    'Reference model (mc/refmodel) is result-conditioned: it asserts only the necessary conditions the properties state and computes exact effects / block rules; validator tie-breaks and acceptance heuristics (stake limiter, EVM gas schedule) are not predicted. Known findings are matched by (kind, site) fingerprints.',
+    "deviation-bounded exhaustive history exploration on the real app, step-by-step comparison with a result-conditioned reference model", "§5 C16")
+
 ALL = ["C%02d" % i for i in range(1, 21)]
 PENDING_REASON = "check under construction in this round (model-checking harness not yet registered); see DESIGN.md §5"
 
